@@ -223,6 +223,21 @@ func synthGeneralNames(g *RNG, hosts []string) []byte {
 	return dseq(gns...)
 }
 
+// stripTL returns the content octets of a DER TLV.
+func stripTL(b []byte) []byte {
+	if len(b) < 2 {
+		return nil
+	}
+	if b[1] < 0x80 {
+		return b[2:]
+	}
+	n := int(b[1] & 0x7f)
+	if len(b) < 2+n {
+		return nil
+	}
+	return b[2+n:]
+}
+
 func dext(oid string, critical bool, value []byte) []byte {
 	if critical {
 		return dseq(doid(oid), dbool(true), doctet(value))
@@ -268,16 +283,48 @@ func synthCert(g *RNG, idx []string) *ObjSpec {
 		return nil
 	}
 	for tries := 0; tries < 8; tries++ {
+		// ---- archetype: independent random features rarely add up to a coherent certificate of some type
+		arch := pick(g, []string{"random", "random", "random", "random", "tls", "tls", "ev-onion", "smime", "codesigning", "ca"})
+		var forcedEKU, forcedPol []string
 		// ---- names
 		nh := g.weighted([]int{1, 4, 3, 3, 2, 2, 1, 1, 1, 1})
 		var hosts []string
 		for i := 0; i < nh; i++ {
 			hosts = append(hosts, pick(g, synthHosts))
 		}
+		switch arch {
+		case "tls":
+			forcedEKU = []string{"1.3.6.1.5.5.7.3.1"}
+			forcedPol = []string{pick(g, []string{"2.23.140.1.2.1", "2.23.140.1.2.2", "2.23.140.1.1"})}
+		case "ev-onion":
+			forcedEKU = []string{"1.3.6.1.5.5.7.3.1"}
+			forcedPol = []string{"2.23.140.1.1"}
+			hosts = hosts[:0]
+			for _, j := range g.subset(6, g.Range(1, 4)) {
+				hosts = append(hosts, []string{"zqktlwi4fecvo6ri.onion", "pg6mmjiyjmcrsslvykfwnntlaru7p5svn6y2ymmju6nubxndf4pscryd.onion", "expyuzz4wqqyqhjn.onion", "www.facebookcorewwwi.onion", "3g2upl4pq6kufc4m.onion", "a.duckduckgogg42xjoc72x3sjasowoarfbgcmvfimaftt6twagswzczad.onion"}[j])
+			}
+		case "smime":
+			forcedEKU = []string{"1.3.6.1.5.5.7.3.4"}
+			forcedPol = []string{pick(g, []string{"2.23.140.1.5.1.1", "2.23.140.1.5.2.2", "2.23.140.1.5.3.1", "2.23.140.1.5.4.3"})}
+		case "codesigning":
+			forcedEKU = []string{"1.3.6.1.5.5.7.3.3"}
+			forcedPol = []string{pick(g, []string{"2.23.140.1.4.1", "2.23.140.1.3"})}
+		}
 		if g.Chance(0.2) && len(hosts) > 0 {
 			hosts = append(hosts, hosts[0])
 		}
+		if g.Chance(0.12) {
+			// an onion-service certificate with several services
+			for _, j := range g.subset(6, g.Range(2, 4)) {
+				hosts = append(hosts, []string{"zqktlwi4fecvo6ri.onion", "pg6mmjiyjmcrsslvykfwnntlaru7p5svn6y2ymmju6nubxndf4pscryd.onion", "expyuzz4wqqyqhjn.onion", "www.facebookcorewwwi.onion", "3g2upl4pq6kufc4m.onion", "a.duckduckgogg42xjoc72x3sjasowoarfbgcmvfimaftt6twagswzczad.onion"}[j])
+			}
+		}
 		isCA := g.Chance(0.2)
+		if arch == "ca" {
+			isCA = true
+		} else if arch != "random" {
+			isCA = false
+		}
 		subject := synthName(g, hosts, g.Chance(0.4))
 		issuer := d.issuer
 		if g.Chance(0.4) {
@@ -311,10 +358,20 @@ func synthCert(g *RNG, idx []string) *ObjSpec {
 				exts = append(exts, e) // duplicated extension
 			}
 		}
-		if len(hosts) > 0 || g.Chance(0.3) {
+		if arch == "smime" {
+			gn := synthGeneralNames(g, nil)
+			inner := gn[len(gn)-len(stripTL(gn)):]
+			add(dext("2.5.29.17", g.Chance(0.1), dseq(ctxPrim(1, []byte(pick(g, []string{"a@example.com", "B.C@example.org"}))), inner)))
+		} else if len(hosts) > 0 || g.Chance(0.3) {
 			add(dext("2.5.29.17", g.Chance(0.1), synthGeneralNames(g, hosts)))
 		}
-		if g.Chance(0.85) {
+		if len(forcedEKU) > 0 {
+			ekus := [][]byte{doid(forcedEKU[0])}
+			if g.Chance(0.3) {
+				ekus = append(ekus, doid(pick(g, synthEKUs)))
+			}
+			add(dext("2.5.29.37", false, dseq(ekus...)))
+		} else if g.Chance(0.85) {
 			var ekus [][]byte
 			k := g.Range(1, 3)
 			if g.Chance(0.25) {
@@ -346,9 +403,18 @@ func synthCert(g *RNG, idx []string) *ObjSpec {
 			}
 			add(dext("2.5.29.19", g.Chance(0.7), dseq(parts...)))
 		}
-		if g.Chance(0.75) {
+		if len(forcedPol) > 0 || g.Chance(0.75) {
 			var pols [][]byte
-			for _, j := range g.subset(len(synthPolicies), g.Range(1, 3)) {
+			polIdx := g.subset(len(synthPolicies), g.Range(1, 3))
+			if len(forcedPol) > 0 {
+				polIdx = polIdx[:g.Intn(2)]
+				for j, sp := range synthPolicies {
+					if sp == forcedPol[0] {
+						polIdx = append([]int{j}, polIdx...)
+					}
+				}
+			}
+			for _, j := range polIdx {
 				var quals [][]byte
 				if g.Chance(0.4) {
 					quals = append(quals, dseq(doid("1.3.6.1.5.5.7.2.1"), dstr("ia5", pick(g, []string{"https://example.com/cps", "http://cps.example.org", "not a uri"}))))
@@ -401,6 +467,36 @@ func synthCert(g *RNG, idx []string) *ObjSpec {
 		}
 		if g.Chance(0.08) {
 			add(dext("1.3.6.1.4.1.99999.7.7", g.Chance(0.5), dstr("utf8", "private extension")))
+		}
+		// CA/B Tor service descriptors for some of the onion names (hash over the onion service's key)
+		var onions []string
+		for _, h := range hosts {
+			if strings.HasSuffix(h, ".onion") {
+				l := strings.Split(h, ".")
+				onions = append(onions, strings.Join(l[len(l)-2:], "."))
+			}
+		}
+		if len(onions) > 0 && g.Chance(0.6) {
+			var ds [][]byte
+			for i, o := range onions {
+				if i > 0 && g.Chance(0.5) {
+					continue
+				}
+				alg := pick(g, []string{"2.16.840.1.101.3.4.2.1", "2.16.840.1.101.3.4.2.1", "2.16.840.1.101.3.4.2.2", "2.16.840.1.101.3.4.2.3", "1.3.14.3.2.26"})
+				bits := map[string]int{"2.16.840.1.101.3.4.2.1": 32, "2.16.840.1.101.3.4.2.2": 48, "2.16.840.1.101.3.4.2.3": 64, "1.3.14.3.2.26": 20}[alg]
+				if g.Chance(0.1) {
+					bits = 16
+				}
+				hsh := make([]byte, bits)
+				for j := range hsh {
+					hsh[j] = byte(g.Intn(256))
+				}
+				uri := pick(g, []string{"https://", "https://", "http://", ""}) + o
+				ds = append(ds, dseq(dstr("utf8", uri), dseq(doid(alg)), dbits(hsh, 0)))
+			}
+			if len(ds) > 0 {
+				add(dext("2.23.140.1.31", false, dseq(ds...)))
+			}
 		}
 		if g.Chance(0.3) && len(exts) > 1 {
 			p := g.Perm(len(exts))
